@@ -239,7 +239,7 @@ Fixpoint to_quote_aux (fuel : bytes) (quote : N) (escaping : bool) (l : lexst) :
     if N.eqb c quote && negb escaping then (Some c, l1)
     else match fuel with
          | [] => (None, l1)
-         | _ :: f => to_quote_aux f quote (N.eqb c 92) l1
+         | _ :: f => to_quote_aux f quote (N.eqb c 92 && negb escaping) l1
          end
   end.
 
@@ -273,11 +273,11 @@ Fixpoint to_brace_aux (fuel : bytes) (end_brace : N) (escaping in_quotes : bool)
         | _ :: f => to_brace_aux f end_brace esc inq qs l1
         end in
     if N.eqb c 34 || N.eqb c 39 then
-      if N.eqb c quotes && negb escaping then continue false (negb in_quotes) 0
-      else continue false true c
+      if negb in_quotes then continue false true c
+      else if N.eqb c quotes && negb escaping then continue false false 0
+      else continue false in_quotes quotes
     else if N.eqb c end_brace && negb in_quotes then (Some c, l1)
-    else if N.eqb c 92 && in_quotes then continue true in_quotes quotes
-    else continue escaping in_quotes quotes
+    else continue (N.eqb c 92 && in_quotes && negb escaping) in_quotes quotes
   end.
 Definition continue_to_matching_brace (end_brace : N) (l : lexst) : rune * lexst :=
   to_brace_aux (l_after l) end_brace false false 0 l.
